@@ -169,6 +169,24 @@ func AnnotateRolesRaw(pa *ParsedAsm, scriptNames map[string]bool, userLabels map
 		m := reGenSuffix.FindStringSubmatch(name)
 		return m != nil && scriptNames[m[1]]
 	}
+	// labels that a control instruction jumps to are code, whatever they are called
+	jumpTargets := map[string]bool{}
+	for _, ln := range pa.Lines {
+		if ln["k"] != "ins" {
+			continue
+		}
+		a := ln["a"].([]string)
+		switch ln["op"].(string) {
+		case "goto_if_eq", "goto_if_ne", "goto_if_lt", "goto_if_le", "goto_if_gt", "goto_if_ge":
+			if len(a) == 1 {
+				jumpTargets[a[0]] = true
+			}
+		case "goto_if_set", "goto_if_unset", "case", "goto_if":
+			if len(a) == 2 {
+				jumpTargets[a[1]] = true
+			}
+		}
+	}
 	for i, ln := range pa.Lines {
 		switch ln["k"] {
 		case "label":
@@ -179,7 +197,7 @@ func AnnotateRolesRaw(pa *ParsedAsm, scriptNames map[string]bool, userLabels map
 				role = "user"
 			case scriptNames[name]:
 				role = "entry"
-			case isGen(name):
+			case isGen(name) || jumpTargets[name]:
 				role = "sub"
 			}
 			ln["role"] = role
